@@ -530,7 +530,7 @@ func rulesC14(p *Prog, r *Report) {
 	}
 
 	// R14.4 price discipline ---------------------------------------------------------
-	priceDiscipline(p, r, "R14.4", map[string]bool{"vault": true, "locker": true, "lend": true, "liquidation": true, "liquidationsV2": true, "auction": true, "auctionsV2": true, "esm": true}, 40)
+	priceDiscipline(p, r, "R14.4", map[string]bool{"vault": true, "locker": true, "lend": true, "liquidation": true, "liquidationsV2": true, "auction": true, "auctionsV2": true, "esm": true, "market": true}, 40)
 }
 
 // priceDiscipline implements the shared rule P: (a) reads of Twa/PriceValue of a GetTwa
@@ -547,8 +547,19 @@ func priceDiscipline(p *Prog, r *Report, rule string, modules map[string]bool, f
 		}
 	}
 	for _, fn := range fns {
+		producer := false
+		for _, c := range calls(fn) {
+			if p.callIs(c, "SetTwa") {
+				producer = true // the price pipeline itself maintains the window it reads (C17's rules)
+			}
+		}
 		for _, b := range fn.Blocks {
 			for _, in := range b.Instrs {
+				if producer {
+					if _, isCall := in.(*ssa.Call); !isCall {
+						continue
+					}
+				}
 				// (a) Twa reads
 				if v, ok := in.(ssa.Value); ok {
 					if t, f, base, isRead := fieldRead(v); isRead && t == "TimeWeightedAverage" && (f == "Twa" || f == "PriceValue") {
